@@ -993,31 +993,13 @@ Section TracerFacts.
     Qed.
   End Corollaries.
 
-  (* ---------------------------------------------------------------- solve_period and solve *)
+  (* ---------------------------------------------------------------- towards solve_period and solve (TracerFacts2.v) *)
   Section Entry.
     Variables (cfg : tcfg) (a : targ) (reset : bool).
     Variables (ev before after : hook).
     Hypothesis ev_shape : shape_pres ev.
     Hypothesis before_shape : shape_pres before.
     Hypothesis after_shape : shape_pres after.
-    Notation traced_solve_period := (traced_solve_period num sub absf ltb isfin zero cfg a reset ev before after).
-    Notation plain_solve_period := (plain_solve_period num sub absf ltb isfin zero ev before after).
-    Notation traced_solve := (traced_solve num sub absf ltb isfin zero cfg a reset ev before after).
-    Notation traced_fold := (traced_fold num sub absf ltb isfin zero cfg a reset ev before after).
-    Notation plain_solve := (plain_solve num sub absf ltb isfin zero ev before after).
-    Notation plain_fold := (plain_fold num sub absf ltb isfin zero ev before after).
-
-    Theorem trace_noninterference_solve_period span d o lab s tr :
-      (forall q, locate span lab = Some q -> truthy a = true -> ready cfg a reset (Z.of_nat q) (vals_of s) tr) ->
-      let R := traced_solve_period span d o lab s tr in
-      (fst (fst R), snd R) = plain_solve_period span d o lab s.
-    Proof.
-      intros Hr. cbv zeta. unfold Tracer.traced_solve_period, Tracer.plain_solve_period.
-      destruct (locate span lab) as [q|]; [|reflexivity].
-      apply (trace_noninterference_solve_t cfg a reset ev before after ev_shape before_shape after_shape).
-      apply Hr. reflexivity.
-    Qed.
-
     (* `ready` at any period survives a traced solve of any period *)
     Lemma ready_preserved t t' v v' (tr tr' : traces) p :
       shape v' = shape v -> length tr' = length tr -> py_pos (length tr) t = Some p ->
@@ -1031,67 +1013,6 @@ Section TracerFacts.
       destruct (Nat.eq_dec p' p) as [->|Hne]; [exact Hw|]. rewrite Hf by exact Hne. exact Hw'.
     Qed.
 
-    Definition ready_all (ps : list nat) (v : vals) (tr : traces) : Prop :=
-      forall q, In q ps -> ready cfg a reset (Z.of_nat q) v tr.
-
-    Lemma traced_fold_erase d o : forall ps s tr,
-      (truthy a = true -> ready_all ps (vals_of s) tr) ->
-      let R := traced_fold d o ps s tr in
-      (fst (fst R), snd R) = plain_fold d o ps s.
-    Proof.
-      induction ps as [|q r IH]; intros s tr Hr; [reflexivity|].
-      cbv zeta. cbn [Tracer.traced_fold Tracer.plain_fold].
-      destruct (truthy a) eqn:Ha.
-      - specialize (Hr eq_refl).
-        destruct (Hr q (or_introl eq_refl)) as (Hv & p & Hp & Hw).
-        pose proof (traced_solve_t_on cfg a reset ev before after ev_shape before_shape after_shape
-                      d o (Z.of_nat q) s tr p Ha Hv Hp Hw) as H.
-        cbv zeta in H. destruct H as (H1 & H2 & H3 & H4 & H5).
-        destruct (traced_solve_t cfg a reset ev before after d o (Z.of_nat q) s tr) as [[s1 tr1] out1].
-        destruct (solve_t_M ev before after d o (Z.of_nat q) s) as [s1' out1'].
-        cbn [fst snd] in *. inversion H1; subst s1' out1'. clear H1.
-        destruct out1 as [b|e]; [|reflexivity].
-        assert (Hr1 : true = true -> ready_all r (vals_of s1) tr1).
-        { intros _ q' Hq'. apply (ready_preserved (Z.of_nat q) (Z.of_nat q') (vals_of s) (vals_of s1) tr tr1 p H2 H3 Hp H4 H5).
-          apply Hr. right. exact Hq'. }
-        specialize (IH s1 tr1 Hr1). cbv zeta in IH.
-        destruct (traced_fold d o r s1 tr1) as [[s2 tr2] out2].
-        destruct (plain_fold d o r s1) as [s2' out2']. cbn [fst snd] in IH. inversion IH; subst.
-        destruct out2'; reflexivity.
-      - rewrite (trace_off_writes_nothing cfg a reset ev before after ev_shape before_shape after_shape d o _ s tr Ha).
-        destruct (solve_t_M ev before after d o (Z.of_nat q) s) as [s1 out1].
-        destruct out1 as [b|e]; [|reflexivity].
-        assert (Hr1 : false = true -> ready_all r (vals_of s1) tr) by (intros Q; discriminate Q).
-        specialize (IH s1 tr Hr1). cbv zeta in IH.
-        destruct (traced_fold d o r s1 tr) as [[s2 tr2] out2].
-        destruct (plain_fold d o r s1) as [s2' out2']. cbn [fst snd] in IH. inversion IH; subst.
-        destruct out2'; reflexivity.
-    Qed.
-
-    (* solve(): one traced solve_t per period, in order; erasing the traces gives the untraced solve() —
-       the list of flags, the exception that stopped it, and every period's values / status / iterations *)
-    Theorem trace_noninterference_solve d o ps s tr :
-      (truthy a = true -> ready_all ps (vals_of s) tr) ->
-      let R := traced_solve d o ps s tr in
-      (fst (fst R), snd R) = plain_solve d o ps s.
-    Proof.
-      intros Hr. cbv zeta. unfold Tracer.traced_solve, Tracer.plain_solve.
-      destruct (max_iter o <? min_iter o); [reflexivity|]. apply traced_fold_erase. exact Hr.
-    Qed.
-
-    (* tracing off: solve() leaves every Trace alone *)
-    Theorem trace_off_solve_writes_nothing d o : forall ps s tr,
-      truthy a = false -> snd (fst (traced_solve d o ps s tr)) = tr.
-    Proof.
-      intros ps s tr Ha. unfold Tracer.traced_solve. destruct (max_iter o <? min_iter o); [reflexivity|].
-      revert s tr. induction ps as [|q r IH]; intros s tr; [reflexivity|].
-      cbn [Tracer.traced_fold].
-      rewrite (trace_off_writes_nothing cfg a reset ev before after ev_shape before_shape after_shape d o _ s tr Ha).
-      destruct (solve_t_M ev before after d o (Z.of_nat q) s) as [s1 out1].
-      destruct out1 as [b|e]; [|reflexivity].
-      specialize (IH s1 tr). destruct (traced_fold d o r s1 tr) as [[s2 tr2] out2]. cbn [fst snd] in *.
-      destruct out2; exact IH.
-    Qed.
   End Entry.
 
 End TracerFacts.
